@@ -343,7 +343,7 @@ def run(ctx):
         ok = f is not None and [a.arg for a in f.args.args[1:]] == params
         ctx.check("R-POLICY-TABLE", f"policy {pol} takes ({', '.join(params)})", f if f is not None else cls.node, ok,
                   f"policy {pol} is bound to {mname} with parameters {[a.arg for a in f.args.args[1:]] if f else None}", construct=f"{Q}::policy {pol}")
-    raises = [n.id for n in acfg.nodes if n.id in alive and n.kind == "raise" and n.ast.exc is not None and "ValueError" in norm(n.ast.exc)]
+    raises = [n.id for n in acfg.nodes if n.id in alive and n.kind == "raise" and isinstance(n.ast, ast.Raise) and n.ast.exc is not None and "ValueError" in norm(n.ast.exc)]
     pm = nodes_calling(acfg, lambda c: dotted(c.func) == "policy_method" or (isinstance(c.func, ast.Name) and c.func.id.startswith("policy")), alive)
     ok = False
     if len(raises) == 1:
